@@ -164,6 +164,42 @@ def deep_models(ctx):
                                  {"n": n, "order": order, "reference_style": style, "recursion_limit": limit, "source_head": sc.source[:300]})
 
 
+def netcdf_faults(ctx, tmp):
+    """data problems found by the NetCDF reader (missing variable, negative 'Positive' data, out-of-range 'Fuzzy' data, a file that is no
+    NetCDF file), with the read as the only command, as a list item and as a direct input: only declared errors leave run()"""
+    import numpy
+    from mpilot.program import Program, EEMS_NETCDF_LIBRARIES
+    from . import c18
+    arr = numpy.ma.array(numpy.array([[-2.0, 0.5], [3.0, 1.0]]), mask=[[False, False], [True, False]])
+    c18.make_var_file(os.path.join(tmp, "v.nc"), (2, 2), arr, fill=-9999.0)
+    open(os.path.join(tmp, "notnc.nc"), "w").write("this is not a NetCDF file\n")
+    reads = [('InFileName = "v.nc", InFieldName = nosuch', "NoSuchVariable"), ('InFileName = "v.nc", InFieldName = v, DataType = "Positive Float"', "InvalidPositiveData"),
+             ('InFileName = "v.nc", InFieldName = v, DataType = "Positive Integer"', "InvalidPositiveData"), ('InFileName = "v.nc", InFieldName = v, DataType = Fuzzy', "InvalidFuzzyData"),
+             ('InFileName = "notnc.nc", InFieldName = v', None), ('InFileName = "v.nc", InFieldName = v, MissingValue = 0.5', "ok")]
+    uses = ["", "S = Sum(InFieldNames = [R, R])\n", "C = Copy(InFieldName = R)\n", "W = EEMSWrite(OutFileName = \"o.nc\", OutFieldNames = [R], DimensionFileName = \"v.nc\", DimensionFieldName = v)\n"]
+    for args, want in reads:
+        for use in uses:
+            src = "R = EEMSRead(%s)\n%s" % (args, use)
+            try:
+                with numpy.errstate(all="ignore"):
+                    p = Program.from_source(src, libraries=EEMS_NETCDF_LIBRARIES, working_dir=tmp)
+                    p.run()
+                out = "ok"
+            except BaseException as e:
+                out = progrun.classify(e)
+                try:
+                    str(e)
+                except Exception as e2:
+                    ctx.fail("NetCDF model: str() of the error raised %s" % type(e2).__name__, {"source": src})
+            ctx.case("netcdf " + src, sample={"kind": "netcdf", "source": src, "outcome": out})
+            ctx.count("netcdf_outcome:" + ":".join(out.split(":")[:2]))
+            if not boundary_ok(out):
+                ctx.fail("NetCDF model: %s escaped from from_source()/run()" % out, {"source": src})
+            elif want not in (None, "ok") and not (out.startswith("mp:" + want) or (use.startswith("C =") and out.startswith("unexpected:"))) and out != "ok":
+                # the declared error of the reader (a consumer that reads it through a single result parameter may see it wrapped)
+                ctx.fail("NetCDF model: expected %s, got %s" % (want, out), {"source": src})
+
+
 def run(ctx):
     ctx.check_proofs(["MPilot.Props.C13"])
     model = common.Model()
@@ -210,6 +246,7 @@ def run(ctx):
         if not boundary_ok(out):
             ctx.fail("corrupted command file: %s escaped" % out, {"source": src})
     deep_models(ctx)
+    netcdf_faults(ctx, tmp)
     csv_faults(ctx, tmp)
     cli(ctx, tmp, 10 if ctx.thorough else 7)
     return ctx.finish(
